@@ -615,6 +615,21 @@ pub fn run_grammar_opts(g: &G, defs: &[ProbeDef], probes: &Probes, depth: usize,
 /// C17: the probe log of one trace against the model (completion phase exact, matching phase
 /// by inclusion, nothing else ever runs)
 fn log_check(a: &RefAuto, probes: &Probes, t: &Trace, ans: &Answer, text: &str, cmdname: &str) -> Option<Mismatch> {
+    let strict = log_check_rules(a, probes, t, ans, text, cmdname, &Rules::default())?;
+    if strict.key == "last-word-command-mismatch-completes" {
+        return Some(strict);
+    }
+    // F6 (listed known finding): a word that stops inside a within-word expression is accepted;
+    // if the log is exactly what the model with that one deviation prescribes, it is that finding
+    let f6 = Rules { within_word_prefix_accepted: true, ..Default::default() };
+    match log_check_rules(a, probes, t, ans, text, cmdname, &f6) {
+        None => Some(Mismatch { key: "within-word-prefix-accepted".into(), summary: format!("{} [explained by: a word stopping inside a within-word expression is accepted]", strict.summary), detail: strict.detail }),
+        Some(m) if m.key == "last-word-command-mismatch-completes" => Some(Mismatch { key: "within-word-prefix-accepted+last-word-command-mismatch-completes".into(), summary: m.summary, detail: m.detail }),
+        Some(_) => Some(strict),
+    }
+}
+
+fn log_check_rules(a: &RefAuto, probes: &Probes, t: &Trace, ans: &Answer, text: &str, cmdname: &str, rules: &Rules) -> Option<Mismatch> {
     // id -> command text
     let mut calls: Vec<(String, String, String)> = vec![];
     for line in &ans.log {
@@ -662,13 +677,12 @@ fn log_check(a: &RefAuto, probes: &Probes, t: &Trace, ans: &Answer, text: &str, 
         }
         Ok(())
     };
-    // walk the path under the strict model
-    let rules = Rules::default();
+    // walk the path under the given rules
     let mut set = a.start_set();
     let mut states: Vec<(StateSet, String)> = vec![];
     for w in &t.path {
         states.push((set.clone(), w.clone()));
-        match read_word(a, &set, w, probes, &rules) {
+        match read_word(a, &set, w, probes, rules) {
             Read::To(n) => set = n,
             _ => {
                 // F7 (listed known finding): a last word that no candidate of a command matches does
@@ -700,7 +714,7 @@ fn log_check(a: &RefAuto, probes: &Probes, t: &Trace, ans: &Answer, text: &str, 
                 let edges = a.out_edges(before);
                 let lit_or_sub = edges.iter().any(|(l, _)| match &a.labels[*l] {
                     RLabel::Lit { text, .. } => text == last,
-                    RLabel::Sub { auto, .. } => refrun::sub_accepts(auto, last, probes, &rules) == refrun::Tri::Yes,
+                    RLabel::Sub { auto, .. } => refrun::sub_accepts(auto, last, probes, rules) == refrun::Tri::Yes,
                     _ => false,
                 });
                 let failing_cmd = edges.iter().any(|(l, _)| matches!(&a.labels[*l], RLabel::Cmd { text, .. } if { let c = probes.candidates(text); !c.is_empty() && !c.iter().any(|x| x == last) }));
